@@ -148,6 +148,12 @@ def step(objs, st, o):
             return ["none"]
         except Exception as e:
             return ["obs", ["raised", type(e).__name__]]
+    if k == "fill":
+        try:
+            objs[st[1] - 1].fill(st[2])
+            return ["none"]
+        except Exception as e:
+            return ["obs", ["raised", type(e).__name__]]
     if k == "ufunc":
         try:
             x = operand(objs, st[2])
@@ -200,7 +206,7 @@ def run_program(prog, opts=None, observe="all"):
         objs = []
         out = []
         for i, st in enumerate(prog):
-            hs = [st[1]] if st[0] in ("select", "assign", "read") else [x[1] for x in (st[2], st[3]) if x[0] == "h"] if st[0] == "ufunc" \
+            hs = [st[1]] if st[0] in ("select", "assign", "read", "fill") else [x[1] for x in (st[2], st[3]) if x[0] == "h"] if st[0] == "ufunc" \
                 else ([st[2], st[3][0]] if st[1] == "concat" else [st[2]]) if st[0] == "func" else []
             if any(h > len(objs) for h in hs):
                 res = ["obs", ["raised", "MissingHandle"]]       # an earlier step failed to create it: reported there
